@@ -68,10 +68,12 @@ def lemma4Factor (q : Expr) (topo : List Name) (v : Name) (index : Nat) : Except
       mkFraction cur prev
 
 /-- `compute_c_factor_marginalizing_over_topological_successors(district, graph_probability, topo)` -/
+def lemma4One (q : Expr) (topo : List Name) (v : Name) : Except Err Expr := do
+  let i ← indexOf topo v
+  lemma4Factor q topo v i
+
 def lemma4 (district : List Name) (q : Expr) (topo : List Name) : Except Err Expr := do
-  let fs ← district.mapM fun v => do
-    let i ← indexOf topo v
-    lemma4Factor q topo v i
+  let fs ← district.mapM (lemma4One q topo)
   pure (productSafe fs)
 
 /-! ### Lemma 1 (i) -/
